@@ -540,6 +540,14 @@ type cookieCase struct {
 	SameSiteFirst            bool // call SetSameSite before SetSecure
 }
 
+// inD126: known finding D126. The cookie writer emits the value as it is; the parser trims outer spaces and
+// strips a pair of double quotes around the value: "a " comes back as "a", "\"abc\"" as "abc". A negative
+// Max-Age (SetMaxAge(-1): "expire now") is not written at all and comes back as 0.
+func inD126(cc *cookieCase) bool {
+	v := cc.Value
+	return strings.TrimSpace(v) != v || (len(v) > 1 && v[0] == '"' && v[len(v)-1] == '"') || cc.MaxAge < 0
+}
+
 // inD93: known finding D93. Cookie.SetPath percent-decodes the path it is given and the cookie is written with
 // the decoded bytes: a path whose ';' or trailing/leading space was correctly escaped ("/a%3Bb", "/my%20file%20")
 // is written raw, so the ';' ends the path (what follows is read as attributes) and the space is trimmed.
@@ -554,7 +562,7 @@ func checkCookie(cc *cookieCase) string {
 	var c protocol.Cookie
 	c.SetKey(cc.Key)
 	c.SetValue(cc.Value)
-	if cc.MaxAge > 0 {
+	if cc.MaxAge != 0 {
 		c.SetMaxAge(cc.MaxAge)
 	}
 	if cc.Expire != 0 {
@@ -590,7 +598,7 @@ func checkCookie(cc *cookieCase) string {
 	if p.HTTPOnly() != c.HTTPOnly() || p.Secure() != c.Secure() || p.Partitioned() != c.Partitioned() || p.SameSite() != c.SameSite() {
 		return fmt.Sprintf("%+v -> %q: flags parse back as httponly=%v secure=%v partitioned=%v samesite=%v, want %v %v %v %v", *cc, s, p.HTTPOnly(), p.Secure(), p.Partitioned(), p.SameSite(), c.HTTPOnly(), c.Secure(), c.Partitioned(), c.SameSite())
 	}
-	if cc.MaxAge > 0 {
+	if cc.MaxAge != 0 {
 		if p.MaxAge() != cc.MaxAge {
 			return fmt.Sprintf("%+v -> %q: Max-Age parses back as %d", *cc, s, p.MaxAge())
 		}
@@ -623,7 +631,10 @@ func checkCookie(cc *cookieCase) string {
 // "": the nameless cookie of the SetCookie documentation ("Set-Cookie: hertz; max-age=10; ..."); a nameless cookie
 // whose value contains '=' cannot be told from a named one and is skipped
 var cookieKeys = []string{"", "k", "session_id", "a-b.c", "A1", "__Host-x", "!#$%&'*+-.^_`|~"}
-var cookieValues = []string{"", "v", "abc123", "a=b", "x%20y", "a/b?c", "!#$&'()*+-./:<=>?@[]^_`{|}~", "1,2"}
+
+// "a ", " a", "\"abc\"": values the setter accepts (its validity table has no complaint) whose outer space or
+// quotes the parser strips: known finding D126
+var cookieValues = []string{"a ", " a", "\"abc\"", "", "v", "abc123", "a=b", "x%20y", "a/b?c", "!#$&'()*+-./:<=>?@[]^_`{|}~", "1,2"}
 var cookieDomains = []string{"", "example.com", ".example.com", "a.b.c"}
 
 // "/%2541", "/a%2520b": SetPath decodes once, the cookie then holds (and writes) a literal %XX, which parsing must not decode again
@@ -632,7 +643,7 @@ var cookiePaths = []string{"", "/", "/a/b", "/a b", "/%41", "/%2541", "/a%2520b/
 func TestC17CookieExhaustive(t *testing.T) {
 	rec := ev.New("cookie-exhaustive")
 	shard, nshards := ev.Shard()
-	var global, evals, nontriv int64
+	var global, evals, nontriv, knownD126 int64
 	fails := 0
 	expires := []int64{0, 1, 86400 * 365 * 30, 253402300799, 1257894000}
 	for _, k := range cookieKeys {
@@ -644,7 +655,7 @@ func TestC17CookieExhaustive(t *testing.T) {
 				for _, p := range cookiePaths {
 					for flags := 0; flags < 8; flags++ {
 						for ss := 0; ss <= 4; ss++ {
-							for _, ma := range []int{0, 1, 3600, 2147483647} {
+							for _, ma := range []int{0, 1, 3600, 2147483647, -1} {
 								for _, ex := range expires {
 									global++
 									if global%int64(nshards) != int64(shard) {
@@ -656,6 +667,10 @@ func TestC17CookieExhaustive(t *testing.T) {
 										nontriv++
 									}
 									if msg := checkCookie(cc); msg != "" {
+										if inD126(cc) && ev.ReportKnown(prop, "D126") {
+											knownD126++
+											continue
+										}
 										fails++
 										ev.Fail(prop, "cookie-exhaustive", cc, msg)
 										t.Errorf("%s", msg)
@@ -675,6 +690,7 @@ func TestC17CookieExhaustive(t *testing.T) {
 			}
 		}
 	}
+	rec.Excluded("D126-cookie-value-with-outer-space-or-quotes-or-negative-max-age", knownD126)
 	rec.Exact(evals, nontriv)
 	rec.Exhaustive("keys x values x domains x paths x all 8 flag subsets {HttpOnly, Secure, Partitioned} x 5 SameSite modes x Max-Age {0,1,3600,2^31-1} x Expires {none, 1970, 1999, 9999-12-31, 2009}")
 }
@@ -721,6 +737,10 @@ func TestC17CookieRandom(t *testing.T) {
 		msg := checkCookie(cc)
 		if msg != "" && inD93(cc) && ev.ReportKnown(prop, "D93") {
 			rec.Excluded("D93-cookie-path-with-an-escaped-semicolon-or-outer-space", 1)
+			return
+		}
+		if msg != "" && inD126(cc) && ev.ReportKnown(prop, "D126") {
+			rec.Excluded("D126-cookie-value-with-outer-space-or-quotes-or-negative-max-age", 1)
 			return
 		}
 		if msg != "" {
